@@ -182,3 +182,8 @@ package storage
 //@   ensures c1 <= 0 && c2 < 0
 //@   ensures j < i ==> c3 < 0
 //@   ensures j > i ==> c4 > 0
+
+// NewTKey (C05, C06): class byte, the standard marker byte, then the type-specific key bytes unchanged.
+//@ func NewTKey
+//@   prop C05 C06
+//@   ensures fresh(result) && len(result) == 2 + len(tkey) && result[0] == uint8(class) && rangeeq(result, 2, tkey, 0, len(tkey))
